@@ -257,6 +257,12 @@ struct Inner {
 
 impl Inner {
     fn read_field_headers(payload: &mut PayloadBuffer) -> Result<Option<HeaderMap>, Error> {
+        // a part without header fields: the blank line follows the delimiter line directly
+        if payload.buf.starts_with(b"\r\n") {
+            let _ = payload.buf.split_to(2);
+            return Ok(Some(HeaderMap::new()));
+        }
+
         match payload.read_until(b"\r\n\r\n")? {
             None => {
                 if payload.eof {
